@@ -41,6 +41,15 @@ def probe_program(shape, probe, backend):
             steps.append(pt.Log(pt.Itob(g) if g.type_of() == pt.TealType.uint64 else g))
         elif probe[0] == "length":
             steps.append(pt.Log(pt.Itob(inst.length())))
+        elif probe[0] == "reuse":
+            # ONE element accessor object (index read from a variable) used twice, the second use nested in the
+            # first one's callback after the variable moved: two different elements must come out
+            i_ = pt.ScratchVar(pt.TealType.uint64)
+            cursor = inst[i_.load()]
+            steps.append(i_.store(pt.Int(0)))
+            steps.append(cursor.use(lambda first: pt.Seq(
+                i_.store(pt.Btoi(pt.Txn.application_args[1])),
+                cursor.use(lambda last: pt.Log(pt.Concat(first.encode(), last.encode()))))))
         else:
             _k, i, how = probe
             es = elem_shape(shape, i if i is not None else 0)
@@ -92,6 +101,7 @@ def probes_for(shape):
                     out.append(("elem", i, "field_decoy_after"))
         return out
     out.append(("length",))
+    out.append(("reuse",))
     out.append(("elem", None, "rt"))
     if isinstance(shape[1], str):
         out.append(("elem", None, "rt_sub"))
@@ -156,6 +166,18 @@ def check_shape(shape, out):
                         want = expected_get(shape, v)
                         if res.verdict != "APPROVE" or res.logs != [want]:
                             viol("get() gave %s %r, expected %s" % (res.verdict, [l.hex() for l in res.logs], want.hex()), probe, backend, ver, v)
+                    elif probe[0] == "reuse":
+                        if len(v) == 0:
+                            continue
+                        es0 = elem_shape(shape, 0)
+                        want = abi_gen.encode(es0, v[0]) + abi_gen.encode(es0, v[len(v) - 1])
+                        if len(want) > 1000:
+                            continue
+                        res = run_probe(p, enc, len(v) - 1)
+                        cnt["traces_validated"] = cnt.get("traces_validated", 0) + 1
+                        if res.verdict != "APPROVE" or res.logs != [want]:
+                            viol("one accessor used twice (elements 0 and %d) gave %s %r, expected %s" % (
+                                len(v) - 1, res.verdict, [l.hex() for l in res.logs], want.hex()), probe, backend, ver, v)
                     elif probe[0] == "length":
                         res = run_probe(p, enc)
                         cnt["traces_validated"] = cnt.get("traces_validated", 0) + 1
